@@ -57,6 +57,12 @@ pub struct Case {
     pub extractor: u8,
     /// frame index after which the stream yields an error (None = never)
     pub stream_error_after: Option<u8>,
+    /// bit i set => the body answers `Poll::Pending` once (waking itself) before it yields frame i
+    #[serde(default)]
+    pub pending_before: u16,
+    /// the request head also carries `Transfer-Encoding: chunked` (what hyper hands over when a client sends both headers)
+    #[serde(default)]
+    pub te_header: bool,
 }
 
 fn byte_at(i: usize, extractor: u8, total: usize) -> u8 {
@@ -90,6 +96,8 @@ enum Piece {
 
 struct Frames {
     pieces: VecDeque<Piece>,
+    pending_before: u16,
+    yielded: usize,
 }
 
 #[derive(Debug)]
@@ -104,7 +112,15 @@ impl std::error::Error for StreamBroke {}
 impl Body for Frames {
     type Data = Bytes;
     type Error = Box<dyn std::error::Error + Send + Sync>;
-    fn poll_frame(mut self: Pin<&mut Self>, _cx: &mut Context<'_>) -> Poll<Option<Result<Frame<Bytes>, Self::Error>>> {
+    fn poll_frame(mut self: Pin<&mut Self>, cx: &mut Context<'_>) -> Poll<Option<Result<Frame<Bytes>, Self::Error>>> {
+        let i = self.yielded;
+        if i < 16 && self.pending_before & (1 << i) != 0 {
+            // suspend once before this frame (the waker is invoked right away, so the poller comes back)
+            self.pending_before &= !(1 << i);
+            cx.waker().wake_by_ref();
+            return Poll::Pending;
+        }
+        self.yielded += 1;
         Poll::Ready(match self.pieces.pop_front() {
             None => None,
             Some(Piece::Data(b)) => Some(Ok(Frame::data(b))),
@@ -283,9 +299,12 @@ async fn run(c: &Case) -> CaseResult {
         2 => Some("application/x-www-form-urlencoded"),
         _ => None,
     };
-    let h = head(cl.as_deref(), ct);
+    let mut h = head(cl.as_deref(), ct);
+    if c.te_header {
+        h.headers.insert(pavex::http::header::TRANSFER_ENCODING, pavex::http::HeaderValue::from_static("chunked"));
+    }
     let n = c.limit as u64;
-    let r = BufferedBody::verif_extract_with_limit(&h, Frames { pieces: pieces.into() }, (c.limit as u64).bytes()).await;
+    let r = BufferedBody::verif_extract_with_limit(&h, Frames { pieces: pieces.into(), pending_before: c.pending_before, yielded: 0 }, (c.limit as u64).bytes()).await;
     let outcome: Result<Vec<u8>, String> = match &r {
         Ok(b) => Ok(b.bytes.to_vec()),
         Err(ExtractBufferedBodyError::SizeLimitExceeded(_)) => Err("SizeLimitExceeded".into()),
@@ -466,6 +485,8 @@ pub fn wire_oracle(c: &WireCase) -> CaseResult {
                     cl: cl.clone(),
                     extractor: 0,
                     stream_error_after: None,
+                    pending_before: 0,
+                    te_header: false,
                 };
                 let (v, r) = content_length(&fake);
                 if let Some(v) = v {
@@ -606,8 +627,10 @@ pub fn case_strategy() -> impl Strategy<Value = Case> {
         cl_strategy(),
         0u8..3,
         prop::option::weighted(0.08, any::<u8>()),
+        prop_oneof![2 => Just(0u16), 1 => any::<u16>()],
+        prop::bool::weighted(0.3),
     )
-        .prop_map(|((limit, total), cuts, empties, trailers, cl, extractor, stream_error_after)| Case {
+        .prop_map(|((limit, total), cuts, empties, trailers, cl, extractor, stream_error_after, pending_before, te_header)| Case {
             limit,
             total,
             cuts,
@@ -616,6 +639,8 @@ pub fn case_strategy() -> impl Strategy<Value = Case> {
             cl,
             extractor,
             stream_error_after,
+            pending_before,
+            te_header,
         })
 }
 
